@@ -14,7 +14,7 @@
           expr ::= (int suf|_) | (float f32|f64|_) | (bool) | (str) | (unitlit)
                  | (var x) | (const c) | (field e f) | (neg e) | (not e) | (bin op l r)
                  | (if c blk [blk]) | (while c blk) | (for x e blk) | (block blk)
-                 | (call f e…) | (set 0|1 x (p…) e) | (cset op 0|1 x (p…) e)
+                 | (call f e…) | (mcall e m e…) | (set 0|1 x (p…) e) | (cset op 0|1 x (p…) e)
                  | (ret ret|accept|reject [e]) | (record T (f e)…) | (list e…)
                  | (ctor T K e…) | (some e) | (none) | (try e) | (match e arm…) | (fstr e…)
           arm  ::= (arm pat expr|_ blk)
@@ -136,6 +136,8 @@ partial def parseExpr : Sexp → Option Expr
     pure (.for (← parseNat x) (← parseExpr e) (← parseBlock b))
   | .list [.atom "block", b] => (parseBlock b).map .block
   | .list (.atom "call" :: f :: args) => do pure (.call (← parseNat f) (← args.mapM parseExpr))
+  | .list (.atom "mcall" :: e :: m :: args) => do
+    pure (.mcall (← parseExpr e) (← parseNat m) (← args.mapM parseExpr))
   | .list [.atom "set", .atom c, x, .list path, e] => do
     pure (.assign (c == "1") (← parseNat x) (← path.mapM parseNat) (← parseExpr e))
   | .list [.atom "cset", .atom op, .atom c, x, .list path, e] => do
